@@ -15,6 +15,6 @@ CFG = dict(
     assumptions=["restart = a fresh coordinator with the WAL attached (DistributedTxCoordinator::new(..).with_wal(TxWal::open(..)) + recover_from_wal), as in the crate's own recovery tests; its lock manager starts empty", "zero deltas (the cross-shard conflict check always passes); AbortIntent records (written only by the async broadcast loop) do not occur", "WAL I/O errors are not injected"],
 )
 MANIFEST = dict(
-    text="On top of the shared WAL framing theorems (crash-prefix for every byte offset, tail repair, multi-generation), the coordinator model (records written by begin / record_vote / commit / abort, TxRecoveryState::from_entries, recover_from_wal with restore_tx, post-recovery commit / abort / complete_* / cleanup_timeouts) with theorems that a logged outcome is never reversed after a restart from any byte prefix, prepared transactions come back with the votes the live coordinator held, and transactions still collecting votes are forgotten; the model is compared with a real DistributedTxCoordinator+TxWal restarted from every truncation offset over up to three crash generations and the property oracle is evaluated on the implementation's own observations and its own decoded log.",
+    text="On top of the shared WAL framing theorems (crash-prefix for every byte offset, tail repair, multi-generation), the coordinator model (records written by begin / record_vote / commit / abort, TxRecoveryState::from_entries, recover_from_wal with restore_tx, post-recovery commit / abort / complete_* / cleanup_timeouts) with theorems that a logged outcome is never reversed after a restart from any byte prefix (for every continuation of calls and timeout sweeps), that the live coordinator's pending table is what its log says (an invariant of every call and every restart) so that Prepared/Committing transactions come back with exactly the votes the live coordinator held and can be completed, and that transactions still collecting votes are forgotten and no lock is held (plus the refutation witness of the pre-fix vote rule); the model is compared with a real DistributedTxCoordinator+TxWal restarted from every truncation offset over up to three crash generations and the property oracle is evaluated on the implementation's own observations and its own decoded log.",
     note="Trusted: Coq kernel, translator gen_C13.py, harness + driver, clock hook. Modelled not verified: bitcode, crc32fast (compared byte-for-byte), file system assumptions.",
 )
